@@ -6,6 +6,8 @@ set -u
 PATCH=$1; shift
 WT=${SEEDWT:-/tmp/seedtest-wt}
 if [ ! -d $WT ]; then git -C /repo worktree add -q --detach $WT HEAD || exit 2; fi
+# a failed 3-way apply leaves unmerged paths, which would make the checkout fail: reset first
+git -C $WT reset -q --hard
 git -C $WT checkout -q --detach ${BASE:-$(git -C /repo rev-parse HEAD)} 2>/dev/null
 git -C $WT reset -q --hard ; git -C $WT clean -qfd -e target
 [ -f $WT/Cargo.lock ] || cp /repo/Cargo.lock $WT/Cargo.lock
